@@ -68,6 +68,8 @@ type run struct {
 	logged   atomic.Int64
 	stopCons chan struct{}
 	consDone chan struct{}
+	pause    atomic.Bool // the consumer stops receiving while set
+	stopRet  atomic.Bool // Stop has returned (and StopEnd is logged)
 }
 
 func start(w *vt.Writer, proto string, n int) *run {
@@ -96,10 +98,14 @@ func start(w *vt.Writer, proto string, n int) *run {
 		defer close(r.consDone)
 		rr := rand.New(rand.NewSource(int64(n)))
 		for {
+			for r.pause.Load() {
+				time.Sleep(2 * time.Millisecond)
+			}
+			late := r.stopRet.Load() // read BEFORE the receive begins
 			select {
 			case m := <-cp.GetMsgChan():
 				r.received.Add(1)
-				w.Emit(vt.Ev{"e": "Deliver", "c": int(m.GetObsDomainID()), "i": int(m.GetSequenceNum())})
+				w.Emit(vt.Ev{"e": "Deliver", "c": int(m.GetObsDomainID()), "i": int(m.GetSequenceNum()), "late": late})
 				r.logged.Add(1)
 				perturb(rr)
 			case <-r.stopCons:
@@ -176,6 +182,7 @@ func (r *run) stop() {
 	t := time.Now()
 	r.cp.Stop()
 	r.w.Emit(vt.Ev{"e": "StopEnd", "ms": int(time.Since(t) / time.Millisecond)})
+	r.stopRet.Store(true)
 }
 
 func (r *run) afterStop() {
@@ -256,7 +263,7 @@ func main() {
 				ru.afterStop()
 				scen++
 				// (B) Stop during traffic, clients connected and mid-message
-				ru = start(w, proto, n)
+				ru = start(w, proto, n+1)
 				until := make(chan struct{})
 				for c := 1; c <= n; c++ {
 					wg.Add(1)
@@ -266,13 +273,75 @@ func main() {
 						ru.client(c, 100000, false, rand.New(rand.NewSource(sd)), until)
 					}(c)
 				}
+				// one more client that is MID-MESSAGE when Stop is called: it has written half of its
+				// next message and keeps the connection open
+				var midConn net.Conn
+				if proto != "udp" {
+					if c, err := ru.dial(); err == nil {
+						midConn = c
+						b := msg(n+1, 1)
+						c.Write(b[:len(b)/2])
+					}
+				}
 				time.Sleep(time.Duration(5+r.Intn(40)) * time.Millisecond)
 				ru.stop()
+				if midConn != nil {
+					midConn.Close()
+				}
 				close(until)
 				wg.Wait()
 				ru.afterStop()
 				scen++
 			}
+		}
+	}
+	// (D) Stop while the consumer is momentarily not receiving: Stop may only return once every reader has
+	// handed over (or dropped) its message; right after it returned, with the consumer still paused,
+	// no goroutine of the collector may be left
+	nD := 3
+	if thorough {
+		nD = 12
+	}
+	for _, proto := range []string{"tcp", "tls"} {
+		for k := 0; k < nD; k++ {
+			n := 2 + r.Intn(6)
+			ru := start(w, proto, n)
+			until := make(chan struct{})
+			var wg sync.WaitGroup
+			for c := 1; c <= n; c++ {
+				wg.Add(1)
+				sd := r.Int63()
+				go func(c int) {
+					defer wg.Done()
+					ru.client(c, 100000, false, rand.New(rand.NewSource(sd)), until)
+				}(c)
+			}
+			time.Sleep(time.Duration(5+r.Intn(20)) * time.Millisecond)
+			ru.pause.Store(true)
+			time.Sleep(10 * time.Millisecond) // readers are now blocked handing their message over
+			stopped := make(chan struct{})
+			go func() {
+				ru.stop()
+				// the consumer is still paused: whatever is alive now cannot be drained by it
+				leaked := 0
+				for q := 0; q < 10; q++ {
+					if leaked = collectorGoroutines(); leaked == 0 {
+						break
+					}
+					time.Sleep(10 * time.Millisecond)
+				}
+				if ru.pause.Load() {
+					w.Emit(vt.Ev{"e": "StopLeak", "leaked": leaked})
+				}
+				close(stopped)
+			}()
+			time.Sleep(300 * time.Millisecond)
+			ru.pause.Store(false) // the consumer drains again
+			<-stopped
+			close(until)
+			wg.Wait()
+			ru.afterStop()
+			scen++
 		}
 	}
 	// (C) Stop right after start (address published), repeatedly
